@@ -3,6 +3,7 @@
 package pfcpiface
 
 import (
+	"time"
 	"github.com/wmnsk/go-pfcp/ie"
 	"github.com/wmnsk/go-pfcp/message"
 )
@@ -408,4 +409,59 @@ func H_C01_raw() {
 	vObserve("raw", len(e.conn.writes)-before)
 	vAssert("dropped-or-answered-once", len(e.conn.writes)-before <= 1)
 	vCover("raw")
+}
+
+// vScriptConn: a peer socket that delivers a scripted sequence of datagrams and
+// then stays silent (the next read times out).
+type vScriptConn struct {
+	*vConn
+	script [][]byte
+	pos    int
+}
+
+type vTimeoutErr struct{}
+
+func (vTimeoutErr) Error() string   { return "i/o timeout" }
+func (vTimeoutErr) Timeout() bool   { return true }
+func (vTimeoutErr) Temporary() bool { return true }
+
+func (c *vScriptConn) Read(b []byte) (int, error) {
+	if c.pos >= len(c.script) {
+		return 0, vTimeoutErr{}
+	}
+	d := c.script[c.pos]
+	c.pos++
+	return copy(b, d), nil
+}
+
+// H_C01_serve: the association's real receive loop (PFCPConn.Serve: reader
+// goroutine, read deadline, dispatch, time-out -> Shutdown) fed with
+// [valid Heartbeat Request, an arbitrary datagram of 0..2 bytes, valid Heartbeat
+// Request] and then silence: the short datagram is dropped, BOTH heartbeats are
+// answered, and the loop ends through the read time-out, not before.
+func H_C01_serve() {
+	e := vNewEnv(false)
+	n := vChoose("short_datagram_len", 3)
+	short := vBytes("short", n)
+	hb := func(seq uint32) []byte {
+		m := message.NewHeartbeatRequest(seq, ie.NewRecoveryTimeStamp(vTS), nil)
+		b := make([]byte, m.MarshalLen())
+		_ = m.MarshalTo(b)
+		return b
+	}
+	sc := &vScriptConn{vConn: e.conn, script: [][]byte{hb(0x111111), short, hb(0x222222)}}
+	e.pc.Conn = sc
+	e.u.readTimeout = 50 * time.Millisecond
+	e.pc.Serve()
+	vObserve("serve", len(e.conn.writes))
+	vAssert("every-datagram-was-read", sc.pos == 3)
+	vAssert("both-valid-heartbeats-answered-the-short-datagram-dropped", len(e.conn.writes) == 2)
+	for k, want := range []uint32{0x111111, 0x222222} {
+		if k < len(e.conn.writes) {
+			m, err := message.Parse(e.conn.writes[k])
+			vAssert("answers-are-heartbeat-responses-in-order", err == nil && m.MessageType() == message.MsgTypeHeartbeatResponse && m.Sequence() == want)
+		}
+	}
+	vAssert("loop-ended-through-the-read-time-out", len(e.done) == 1 && e.conn.closed == 1)
+	vCover("serve")
 }
